@@ -1,3 +1,468 @@
 import MgModel.C17.Size
+/-!
+# C17 — lemmas for the size-rotating handler
+
+1. the backup table (`bget`/`bset`) and what `remove`, `rename`, the rename loop and
+   `rotate` do to each file;
+2. the refinement relation `Rel` between the model state and the segment history
+   (`MgModel.C17.Spec`), preserved by every call;
+3. pure list facts about the segment history.
+-/
 namespace MgProof.C17
+open MgModel.C17
+variable {α : Type}
+
+theorem bget_bset (b : Bak α) (i j : Nat) (v : Option (List α)) :
+    bget (bset b i v) j = if j = i then v else bget b j := by
+  unfold bget bset
+  split
+  · simp only [List.getD_eq_getElem?_getD, List.getElem?_set]
+    grind
+  · simp only [List.getD_eq_getElem?_getD]
+    grind
+
+theorem bget_remove (b : Bak α) (i j : Nat) :
+    bget (osRemoveIfExists b i) j = if j = i then none else bget b j := by
+  unfold osRemoveIfExists
+  split
+  · exact bget_bset ..
+  · split
+    · rename_i h1 h2; subst h2; cases h : bget b j <;> simp_all
+    · rfl
+
+theorem bget_rename (b : Bak α) (i j k : Nat) (hj : bget b j = none) :
+    bget (osRename b i j) k = if k = j then bget b i else if k = i then none else bget b k := by
+  unfold osRename
+  cases h : bget b i with
+  | none => grind
+  | some c => simp only [bget_bset]
+
+theorem bget_renameLoop : ∀ (i : Nat) (b : Bak α) (j : Nat), bget b (i + 1) = none →
+    bget (renameLoop i b) j =
+      if i = 0 then bget b j else if j = 1 then none
+      else if 2 ≤ j ∧ j ≤ i + 1 then bget b (j - 1) else bget b j := by
+  intro i
+  induction i with
+  | zero => intro b j _; simp [renameLoop]
+  | succ i ih =>
+    intro b j hb
+    have hr := fun k => bget_rename b (i + 1) (i + 2) k hb
+    rw [renameLoop, ih _ j (by rw [hr]; simp)]
+    simp only [hr]
+    grind
+
+/-- what `rotate` does to the directory, file by file -/
+theorem rotate_spec (h : RH) (fs : FS α) (c : List α) (hl : fs.live = some c) :
+    (rotate h fs).1 = { h with isOpen := true, offset := 0 } ∧
+    (rotate h fs).2.live = some [] ∧
+    ∀ j, bget (rotate h fs).2.bak j =
+      if j = 1 then some c
+      else if 2 ≤ j ∧ j ≤ eff h.backupCount then bget fs.bak (j - 1)
+      else if j = 0 ∧ h.backupCount = 0 then none
+      else bget fs.bak j := by
+  refine ⟨rfl, rfl, ?_⟩
+  intro j
+  simp only [rotate, hl, bget_bset]
+  by_cases h1 : j = 1
+  · simp [h1]
+  · simp only [h1, if_false]
+    rcases Nat.eq_zero_or_pos h.backupCount with h0 | hpos
+    · simp only [h0, Nat.zero_sub, renameLoop, bget_remove, eff]
+      grind
+    · have hb : bget (osRemoveIfExists fs.bak h.backupCount) (h.backupCount - 1 + 1) = none := by
+        rw [bget_remove]; simp; omega
+      rw [bget_renameLoop _ _ _ hb]
+      simp only [bget_remove, eff]
+      grind
+
+@[simp] theorem seg_cons_zero (a : List α) (S : List (List α)) : seg (a :: S) 0 = a := rfl
+@[simp] theorem seg_cons_succ (a : List α) (S : List (List α)) (j : Nat) :
+    seg (a :: S) (j + 1) = seg S j := by simp [seg]
+theorem seg_drop_one (S : List (List α)) (j : Nat) : seg (S.drop 1) j = seg S (j + 1) := by
+  cases S <;> simp [seg]
+
+/-- the refinement relation between the model state and the segment history -/
+structure Rel (len : α → Nat) (k : Nat) (s : St α) (sp : Spec α) : Prop where
+  live : cont s.fs.live = seg sp.segs 0
+  bak : ∀ j, 1 ≤ j → j ≤ k → cont (bget s.fs.bak j) = seg sp.segs j
+  isOpen : s.h.isOpen = sp.isOpen
+  whenOpen : s.h.isOpen = true → s.fs.live.isSome ∧ s.h.offset = fsize len (cont s.fs.live) ∧
+    s.h.maxBytes = sp.maxBytes ∧ eff s.h.backupCount = k
+
+theorem rel_rotate {len : α → Nat} {k : Nat} {h : RH} {fs : FS α} {sp : Spec α}
+    (hl : fs.live.isSome) (hk : eff h.backupCount = k)
+    (rl : cont fs.live = seg sp.segs 0)
+    (rb : ∀ j, 1 ≤ j → j ≤ k → cont (bget fs.bak j) = seg sp.segs j)
+    (ho : sp.isOpen = true) (hm : h.maxBytes = sp.maxBytes) :
+    Rel len k ⟨(rotate h fs).1, (rotate h fs).2⟩ { sp with segs := [] :: sp.segs } := by
+  obtain ⟨c, hc⟩ := Option.isSome_iff_exists.mp hl
+  obtain ⟨h1, h2, h3⟩ := rotate_spec h fs c hc
+  refine ⟨by simp [h2, cont], ?_, by simp [h1, ho], ?_⟩
+  · intro j hj1 hjk
+    simp only [h3]
+    by_cases e : j = 1
+    · subst e; simp [cont, ← rl, hc]
+    · obtain ⟨j', rfl⟩ : ∃ j', j = j' + 1 := ⟨j - 1, by omega⟩
+      have : 2 ≤ j' + 1 ∧ j' + 1 ≤ eff h.backupCount := by omega
+      simp only [e, this, if_true, if_false, and_self, seg_cons_succ]
+      exact rb j' (by omega) (by omega)
+  · intro _
+    simp [h1, h2, cont, fsize, hm, hk]
+
+theorem fsize_append (len : α → Nat) (a b : List α) : fsize len (a ++ b) = fsize len a + fsize len b := by
+  simp [fsize]
+
+/-- every init of the history keeps the same number of backups `k` -/
+def ConstK (k : Nat) : List (Op α) → Prop
+  | [] => True
+  | .init _ bc :: ops => eff bc = k ∧ ConstK k ops
+  | _ :: ops => ConstK k ops
+
+theorem rel_step {len : α → Nat} {k : Nat} {s : St α} {sp : Spec α} (r : Rel len k s sp)
+    (op : Op α) (hop : ∀ mb bc, op = .init mb bc → eff bc = k) :
+    Rel len k (step len s op) (specStep len sp op) := by
+  cases op with
+  | close =>
+    exact ⟨r.live, r.bak, by simp [step, specStep, close], by simp [step, close]⟩
+  | init mb bc =>
+    have hk := hop mb bc rfl
+    simp only [step, init, specStep, specRotateIf]
+    by_cases hge : fsize len (cont s.fs.live) ≥ mb
+    · simp only [hge, ← r.live, if_true]
+      exact rel_rotate (sp := { sp with isOpen := true, maxBytes := mb })
+        (h := { isOpen := true, offset := fsize len (cont s.fs.live), maxBytes := mb, backupCount := bc })
+        (fs := { s.fs with live := some (cont s.fs.live) }) (by simp) hk
+        (by simpa [cont] using r.live) r.bak rfl rfl
+    · simp only [hge, ← r.live, if_false]
+      exact ⟨by simpa [cont] using r.live, r.bak, rfl, by intro _; simp [cont, hk]⟩
+  | write l =>
+    simp only [step, write, specStep]
+    by_cases ho : s.h.isOpen = true
+    · obtain ⟨hsome, hoff, hmb, hk⟩ := r.whenOpen ho
+      have ho' : sp.isOpen = true := by rw [← r.isOpen]; exact ho
+      simp only [ho, ho', if_true, specRotateIf, seg_cons_zero, ← r.live, fsize_append, ← hoff, ← hmb]
+      have hsz : fsize len [l] = len l := by simp [fsize]
+      rw [hsz]
+      have rb : ∀ j, 1 ≤ j → j ≤ k → cont (bget s.fs.bak j)
+          = seg ((cont s.fs.live ++ [l]) :: sp.segs.drop 1) j := by
+        intro j hj1 hjk
+        obtain ⟨j', rfl⟩ : ∃ j', j = j' + 1 := ⟨j - 1, by omega⟩
+        rw [seg_cons_succ, seg_drop_one]; exact r.bak _ hj1 hjk
+      by_cases hge : s.h.offset + len l ≥ s.h.maxBytes
+      · simp only [hge, if_true]
+        exact rel_rotate
+          (sp := { segs := (cont s.fs.live ++ [l]) :: sp.segs.drop 1, isOpen := true,
+                   maxBytes := s.h.maxBytes })
+          (h := { isOpen := true, offset := s.h.offset + len l, maxBytes := s.h.maxBytes,
+                  backupCount := s.h.backupCount })
+          (fs := { live := some (cont s.fs.live ++ [l]), bak := s.fs.bak }) (by simp) hk
+          (by simp [cont]) rb rfl rfl
+      · simp only [hge, if_false]
+        exact ⟨by simp [cont], rb, rfl,
+          by intro _; simp [cont, fsize_append, hsz, hoff, hmb, hk]⟩
+    · have ho' : sp.isOpen = false := by rw [← r.isOpen]; simpa using ho
+      simp only [ho, ho']
+      exact ⟨r.live, r.bak, r.isOpen, r.whenOpen⟩
+
+theorem constK_cons {k : Nat} {op : Op α} {ops : List (Op α)} (h : ConstK k (op :: ops)) :
+    (∀ mb bc, op = .init mb bc → eff bc = k) ∧ ConstK k ops := by
+  cases op with
+  | init mb bc => exact ⟨fun _ _ e => by cases e; exact h.1, h.2⟩
+  | write l => exact ⟨fun _ _ e => (nomatch e), h⟩
+  | close => exact ⟨fun _ _ e => (nomatch e), h⟩
+
+theorem rel_run {len : α → Nat} {k : Nat} (ops : List (Op α)) : ∀ {s : St α} {sp : Spec α},
+    Rel len k s sp → ConstK k ops → Rel len k (run len s ops) (specRun len sp ops) := by
+  induction ops with
+  | nil => intro s sp r _; exact r
+  | cons op ops ih =>
+    intro s sp r hc
+    obtain ⟨h1, h2⟩ := constK_cons hc
+    exact ih (rel_step r op h1) h2
+
+/-- a directory as found, with no handler open, is related to its own segmentation -/
+theorem rel_initial (len : α → Nat) (k : Nat) (h0 : RH) (fs0 : FS α) (hc : h0.isOpen = false)
+    (mb0 : Nat) :
+    Rel len k ⟨h0, fs0⟩ { segs := segsOf fs0 k, isOpen := false, maxBytes := mb0 } := by
+  refine ⟨rfl, ?_, hc, by simp [hc]⟩
+  intro j hj1 hjk
+  obtain ⟨j', rfl⟩ : ∃ j', j = j' + 1 := ⟨j - 1, by omega⟩
+  rw [segsOf, seg_cons_succ, seg, List.getD_eq_getElem?_getD, List.getElem?_map,
+    List.getElem?_range (by omega)]
+  rfl
+
+/-! ### the segment history itself (pure list facts) -/
+
+theorem specAll_cons (a : List α) (S : List (List α)) : specAll (a :: S) = specAll S ++ a := by
+  simp [specAll]
+
+theorem specAll_head (S : List (List α)) : specAll S = specAll (S.drop 1) ++ seg S 0 := by
+  cases S with
+  | nil => simp [specAll, seg]
+  | cons a t => simp [specAll_cons]
+
+theorem specAll_rotateIf (len : α → Nat) (sp : Spec α) :
+    specAll (specRotateIf len sp).segs = specAll sp.segs := by
+  unfold specRotateIf; split <;> simp [specAll_cons]
+
+theorem specRotateIf_isOpen (len : α → Nat) (sp : Spec α) :
+    (specRotateIf len sp).isOpen = sp.isOpen := by
+  unfold specRotateIf; split <;> rfl
+
+/-- nothing is ever forgotten by the segment history: all segments, oldest first,
+are everything that was there plus everything written -/
+theorem specAll_run (len : α → Nat) (ops : List (Op α)) : ∀ (sp : Spec α),
+    specAll (specRun len sp ops).segs = specAll sp.segs ++ written sp.isOpen ops := by
+  induction ops with
+  | nil => intro sp; simp [specRun, written]
+  | cons op ops ih =>
+    intro sp
+    rw [specRun, ih]
+    cases op with
+    | init mb bc =>
+      simp [specStep, specAll_rotateIf, specRotateIf_isOpen, written]
+    | close => simp [specStep, written]
+    | write l =>
+      simp only [specStep, written]
+      by_cases ho : sp.isOpen = true
+      · simp only [ho, if_true, specAll_rotateIf, specRotateIf_isOpen, specAll_cons]
+        rw [specAll_head sp.segs]; simp
+      · simp [ho]
+
+theorem specView_split (k : Nat) (S : List (List α)) :
+    specAll S = ((S.drop (k + 1)).reverse).flatten ++ specView k S := by
+  unfold specAll specView
+  rw [← List.flatten_append, ← List.reverse_append, List.take_append_drop]
+
+theorem specView_suffix (k : Nat) (S : List (List α)) : specView k S <:+ specAll S :=
+  ⟨_, (specView_split k S).symm⟩
+
+/-- `specView` unfolded file by file -/
+def specBackups (S : List (List α)) : Nat → List α
+  | 0 => []
+  | k + 1 => seg S (k + 1) ++ specBackups S k
+
+theorem specView_eq (S : List (List α)) : ∀ k, specView k S = specBackups S k ++ seg S 0 := by
+  intro k
+  induction k with
+  | zero => cases S <;> simp [specView, specBackups, seg]
+  | succ k ih =>
+    unfold specView at *
+    rw [List.take_add_one, List.reverse_append, List.flatten_append, ih, specBackups, List.append_assoc]
+    congr 1
+    simp only [seg, List.getD_eq_getElem?_getD]
+    cases S[k + 1]? <;> simp
+
+theorem view_eq_specView {len : α → Nat} {k : Nat} {s : St α} {sp : Spec α} (r : Rel len k s sp) :
+    view k s.fs = specView k sp.segs := by
+  rw [specView_eq, view, r.live]
+  congr 1
+  have : ∀ n, n ≤ k → backups s.fs n = specBackups sp.segs n := by
+    intro n
+    induction n with
+    | zero => intro _; rfl
+    | succ n ih => intro hn; rw [backups, specBackups, r.bak _ (by omega) hn, ih (by omega)]
+  exact this k (Nat.le_refl k)
+
+theorem view_segsOf (fs : FS α) (k : Nat) : specAll (segsOf fs k) = view k fs := by
+  have h : specView k (segsOf fs k) = specAll (segsOf fs k) := by
+    unfold specView specAll
+    rw [List.take_of_length_le (by simp [segsOf])]
+  rw [← h]
+  exact (view_eq_specView (rel_initial (fun _ => 0) k {} fs rfl 0)).symm
+
+/-! ### how a run extends the segment history -/
+
+theorem specRotateIf_segs (len : α → Nat) (sp : Spec α) :
+    (specRotateIf len sp).segs = sp.segs ∨ (specRotateIf len sp).segs = [] :: sp.segs := by
+  unfold specRotateIf; split <;> simp
+
+/-- a run only extends the history at its head: the older segments `T` are never
+touched, and the new head segments contain the old head followed by what was written -/
+theorem specRun_head (len : α → Nat) (ops : List (Op α)) : ∀ (sp : Spec α) (a : List α)
+    (T : List (List α)), sp.segs = a :: T →
+    ∃ news, (specRun len sp ops).segs = news ++ T ∧
+      news.length = rotations len sp ops + 1 ∧
+      specAll news = a ++ written sp.isOpen ops := by
+  induction ops with
+  | nil =>
+    intro sp a T h
+    exact ⟨[a], by simp [specRun, h], by simp [rotations, specRun], by simp [specAll, written]⟩
+  | cons op ops ih =>
+    intro sp a T h
+    -- one step turns the head `a` into `a'` or `[] :: a'`
+    have key : ∃ a', ((specStep len sp op).segs = a' :: T ∨ (specStep len sp op).segs = [] :: a' :: T) ∧
+        a' ++ written (specStep len sp op).isOpen ops = a ++ written sp.isOpen (op :: ops) := by
+      cases op with
+      | close => exact ⟨a, Or.inl h, by simp [specStep, written]⟩
+      | init mb bc =>
+        refine ⟨a, ?_, by simp [specStep, specRotateIf_isOpen, written]⟩
+        rcases specRotateIf_segs len { sp with isOpen := true, maxBytes := mb } with e | e
+        · left; simp only [specStep]; rw [e]; exact h
+        · right; simp only [specStep]; rw [e]; simp [h]
+      | write l =>
+        by_cases ho : sp.isOpen = true
+        · have hstep : specStep len sp (.write l) = specRotateIf len
+              { sp with segs := (seg sp.segs 0 ++ [l]) :: sp.segs.drop 1 } := by
+            simp only [specStep]; rw [if_pos ho]
+          refine ⟨a ++ [l], ?_, by rw [hstep]; simp [ho, specRotateIf_isOpen, written]⟩
+          rw [hstep]
+          rcases specRotateIf_segs len { sp with segs := (seg sp.segs 0 ++ [l]) :: sp.segs.drop 1 }
+            with e | e
+          · left; rw [e]; simp [h]
+          · right; rw [e]; simp [h]
+        · exact ⟨a, Or.inl (by simp [specStep, ho, h]), by simp [specStep, ho, written]⟩
+    obtain ⟨a', hs, hw⟩ := key
+    have hlen : (specRun len sp (op :: ops)).segs.length
+        = (specRun len (specStep len sp op) ops).segs.length := rfl
+    rcases hs with hs | hs
+    · obtain ⟨news, h1, h2, h3⟩ := ih _ a' T hs
+      refine ⟨news, by simpa [specRun] using h1, ?_, by rw [h3, hw]⟩
+      simp only [rotations, hlen, hs, h, List.length_cons] at h2 ⊢
+      exact h2
+    · obtain ⟨news, h1, h2, h3⟩ := ih _ [] (a' :: T) hs
+      refine ⟨news ++ [a'], by simpa [specRun] using h1, ?_, ?_⟩
+      · have hL := congrArg List.length h1
+        simp only [rotations, hlen, hs, h, List.length_append, List.length_cons, List.length_nil]
+          at h2 hL ⊢
+        omega
+      · rw [← hw]; simp only [specAll, List.reverse_append] at h3 ⊢
+        simp [h3]
+
+theorem segsOf_tail_take (fs : FS α) (k n : Nat) (hn : n ≤ k) :
+    cont fs.live :: ((segsOf fs k).drop 1).take n = segsOf fs n := by
+  simp only [segsOf, List.drop_one, List.tail_cons, ← List.map_take, List.take_range]
+  rw [Nat.min_eq_left hn]
+
+/-- with at most `k` rotations nothing written is discarded; each rotation only pushes out
+the oldest pre-existing backup -/
+theorem specView_few_rotations (len : α → Nat) (k : Nat) (fs0 : FS α) (mb0 : Nat) (ops : List (Op α))
+    (hr : rotations len { segs := segsOf fs0 k, isOpen := false, maxBytes := mb0 } ops ≤ k) :
+    specView k (specRun len { segs := segsOf fs0 k, isOpen := false, maxBytes := mb0 } ops).segs
+      = view (k - rotations len { segs := segsOf fs0 k, isOpen := false, maxBytes := mb0 } ops) fs0
+        ++ written false ops := by
+  generalize hsp : ({ segs := segsOf fs0 k, isOpen := false, maxBytes := mb0 } : Spec α) = sp at *
+  have hsegs : sp.segs = cont fs0.live :: (segsOf fs0 k).drop 1 := by rw [← hsp]; rfl
+  have hopen : sp.isOpen = false := by rw [← hsp]
+  obtain ⟨news, h1, h2, h3⟩ := specRun_head len ops sp _ _ hsegs
+  rw [hopen] at h3
+  have hT : ((segsOf fs0 k).drop 1).length = k := by simp [segsOf]
+  unfold specView
+  rw [h1, List.take_append, h2, List.take_of_length_le (by omega), List.reverse_append,
+    List.flatten_append]
+  have : k + 1 - (rotations len sp ops + 1) = k - rotations len sp ops := by omega
+  rw [this]
+  have h4 := view_segsOf fs0 (k - rotations len sp ops)
+  rw [← segsOf_tail_take fs0 k _ (Nat.sub_le ..), specAll_cons] at h4
+  change _ ++ specAll news = _
+  rw [h3, ← h4, specAll, List.append_assoc]
+
+/-! ### the live file stays below the limit -/
+
+/-- every init of the history has `max_bytes ≥ 1` -/
+def PosLimit : List (Op α) → Prop
+  | [] => True
+  | .init mb _ :: ops => 1 ≤ mb ∧ PosLimit ops
+  | _ :: ops => PosLimit ops
+
+/-- while the handler is open: the live file exists, `offset` is its size, and it is
+below the limit (so the next line is the one that may take it over) -/
+def OffInv (len : α → Nat) (s : St α) : Prop :=
+  s.h.isOpen = true → s.fs.live.isSome ∧ s.h.offset = fsize len (cont s.fs.live) ∧
+    1 ≤ s.h.maxBytes ∧ s.h.offset < s.h.maxBytes
+
+theorem offInv_step {len : α → Nat} {s : St α} (inv : OffInv len s) (op : Op α)
+    (hop : ∀ mb bc, op = .init mb bc → 1 ≤ mb) : OffInv len (step len s op) := by
+  cases op with
+  | close => intro h; simp [step, close] at h
+  | init mb bc =>
+    have hmb := hop mb bc rfl
+    intro _
+    simp only [step, init]
+    split
+    · simp [rotate, cont, fsize]; omega
+    · rename_i hlt
+      simp only [ge_iff_le, Nat.not_le, cont] at hlt
+      simp [cont]; omega
+  | write l =>
+    intro ho
+    simp only [step, write] at ho ⊢
+    by_cases hopen : s.h.isOpen = true
+    · obtain ⟨_, hoff, hpos, _⟩ := inv hopen
+      simp only [hopen, if_true] at ho ⊢
+      split
+      · simp [rotate, cont, fsize]; omega
+      · rename_i hlt
+        simp only [ge_iff_le, Nat.not_le] at hlt
+        simp [cont, fsize, hoff] at hlt ⊢
+        omega
+    · simp [hopen] at ho
+
+theorem posLimit_cons {op : Op α} {ops : List (Op α)} (h : PosLimit (op :: ops)) :
+    (∀ mb bc, op = .init mb bc → 1 ≤ mb) ∧ PosLimit ops := by
+  cases op with
+  | init mb bc => exact ⟨fun _ _ e => by cases e; exact h.1, h.2⟩
+  | write l => exact ⟨fun _ _ e => (nomatch e), h⟩
+  | close => exact ⟨fun _ _ e => (nomatch e), h⟩
+
+theorem offInv_run {len : α → Nat} (ops : List (Op α)) : ∀ {s : St α}, OffInv len s → PosLimit ops →
+    OffInv len (run len s ops) := by
+  induction ops with
+  | nil => intro s i _; exact i
+  | cons op ops ih =>
+    intro s i hp
+    obtain ⟨h1, h2⟩ := posLimit_cons hp
+    exact ih (offInv_step i op h1) h2
+
+/-! ### the newest line is never the one that is discarded -/
+
+/-- the newest line of `w` is the last line of the head segment, or the head is empty
+(just rotated) and it is the last line of the segment before -/
+def NL (S : List (List α)) (w : List α) : Prop :=
+  w ≠ [] → (seg S 0).getLast? = w.getLast? ∨ (seg S 0 = [] ∧ (seg S 1).getLast? = w.getLast?)
+
+theorem nl_rotateIf (len : α → Nat) (sp : Spec α) (w : List α) (h : NL sp.segs w)
+    (hpos : 1 ≤ sp.maxBytes ∨ (seg sp.segs 0).getLast? = w.getLast?) :
+    NL (specRotateIf len sp).segs w := by
+  unfold specRotateIf
+  split
+  · rename_i hge
+    intro hw
+    right
+    refine ⟨rfl, ?_⟩
+    rw [seg_cons_succ]
+    rcases hpos with hpos | hpos
+    · rcases h hw with h' | ⟨h', _⟩
+      · exact h'
+      · rw [h'] at hge; simp [fsize] at hge; omega
+    · exact hpos
+  · exact h
+
+theorem nl_run (len : α → Nat) (ops : List (Op α)) : ∀ (sp : Spec α) (w : List α),
+    NL sp.segs w → PosLimit ops → NL (specRun len sp ops).segs (w ++ written sp.isOpen ops) := by
+  induction ops with
+  | nil => intro sp w h _; simpa [specRun, written] using h
+  | cons op ops ih =>
+    intro sp w h hp
+    obtain ⟨h1, h2⟩ := posLimit_cons hp
+    cases op with
+    | close => simpa [specRun, specStep, written] using ih { sp with isOpen := false } w h h2
+    | init mb bc =>
+      have := ih (specStep len sp (.init mb bc)) w
+        (nl_rotateIf len _ w h (Or.inl (h1 mb bc rfl))) h2
+      simpa [specRun, specStep, specRotateIf_isOpen, written] using this
+    | write l =>
+      by_cases ho : sp.isOpen = true
+      · have hstep : specStep len sp (.write l) = specRotateIf len
+            { sp with segs := (seg sp.segs 0 ++ [l]) :: sp.segs.drop 1 } := by
+          simp only [specStep]; rw [if_pos ho]
+        have hnl : NL ((seg sp.segs 0 ++ [l]) :: sp.segs.drop 1) (w ++ [l]) := by
+          intro _; left; simp
+        have := ih (specStep len sp (.write l)) (w ++ [l])
+          (by rw [hstep]; exact nl_rotateIf len _ _ hnl (Or.inr (by simp))) h2
+        rw [hstep, specRotateIf_isOpen] at this
+        simpa [specRun, hstep, written, ho] using this
+      · have := ih sp w h h2
+        simpa [specRun, specStep, written, ho] using this
+
 end MgProof.C17
